@@ -100,11 +100,11 @@ def gen_admm(r, exact, opaque=False):
                 sigma=sigma, x0=x0)
 
 
-def impl_admm(p, variant, n):
+def impl_admm(p, variant, n, distinct=False):
     import odl
     from odl.solvers.nonsmooth.admm import admm_linearized, admm_linearized_simple
     fn = admm_linearized if variant == 'opt' else admm_linearized_simple
-    x = unflat(p['L'].domain, p['x0'])
+    x = (sl.unflat_distinct if distinct else unflat)(p['L'].domain, p['x0'])
     rec = Recorder()
     st, _ = guarded(fn, x, p['f'], p['g'], p['L'], p['tau'], p['sigma'], n, callback=rec)
     return st, rec.iterates, flat(x).copy()
@@ -134,6 +134,16 @@ def check_callback(ctx, p, n, log, final, what):
     return True
 
 
+def start_distinct(ctx, p, n, fam, what, log, run):
+    """the start element(s) live in EQUAL BUT SEPARATELY BUILT spaces: same iterates, no exception"""
+    st, log_d = run()
+    ctx.hit('start/equal-distinct-space/' + fam)
+    d = st if st != 'ok' else sl.arrays_differ(log_d, log)
+    if d:
+        viol(ctx, '{} started from an element of an equal but separately built space opkind={} f={} '
+             'g={}'.format(what, p.get('opkind'), p.get('fk'), p.get('gk')), str(d)[:300], p, n=n)
+
+
 def family_admm(ctx, r, exact, n, opaque=False):
     p = gen_admm(r, exact, opaque)
     p.update(cseed=r.cseed, exact=exact, opaque=opaque)
@@ -152,6 +162,7 @@ def family_admm(ctx, r, exact, n, opaque=False):
             ctx.violation(key, 'iterates differ: ' + d, desc_of(p, n=n))
             ok = False
         ok = check_callback(ctx, p, n, log_o, x_o, 'admm_linearized') and ok
+        start_distinct(ctx, p, n, 'admm', 'admm_linearized', log_o, lambda: impl_admm(p, 'opt', n, True)[:2])
     else:
         ctx.err(st_o.split(':')[1])
     sig = ('opaque' if opaque else 'model', 'admm', p['opkind'], p['fk'], p['gk'],
@@ -239,9 +250,9 @@ def gen_adupdates(r, exact, opaque=False):
                 npseed=npseed)
 
 
-def impl_adupdates(p, variant, n, cb='outer'):
+def impl_adupdates(p, variant, n, cb='outer', distinct=False):
     from odl.solvers.nonsmooth.alternating_dual_updates import adupdates, adupdates_simple
-    x = unflat(p['Ls'][0].domain, p['x0'])
+    x = (sl.unflat_distinct if distinct else unflat)(p['Ls'][0].domain, p['x0'])
     g = [G if not hasattr(G, 'f') else G.f for G in p['Gs']]
     rec = Recorder()
     np.random.seed(p.get('npseed', 0))
@@ -277,6 +288,8 @@ def family_adupdates(ctx, r, exact, n, opaque=False):
             viol(ctx, key, 'iterate k of the optimised solver vs result of the simple one '
                  'after k iterations: ' + d, p, n=n)
         check_callback(ctx, p, n, log_o, x_o, 'adupdates(outer)')
+        start_distinct(ctx, p, n, 'adupdates', 'adupdates', log_o,
+                       lambda: impl_adupdates(p, 'opt', n, 'outer', True)[:2])
         st_i, log_i, x_i = impl_adupdates(p, 'opt', n, 'inner')
         if st_i == 'ok':
             if len(log_i) != n * p['m']:
@@ -355,10 +368,11 @@ def gen_dpdc(r, exact, opaque=False):
                 gk=gk, hk=hk, gamma=sl.pick_step(r, exact), mu=sl.pick_step(r, exact), x0=x0, y0=y0)
 
 
-def impl_dpdc(p, variant, n):
+def impl_dpdc(p, variant, n, distinct=False):
     from odl.solvers.nonsmooth.difference_convex import doubleprox_dc, doubleprox_dc_simple
     K = p['L']
-    x, y = unflat(K.domain, p['x0']), unflat(K.range, p['y0'])
+    mk = sl.unflat_distinct if distinct else unflat
+    x, y = mk(K.domain, p['x0']), mk(K.range, p['y0'])
     rec = Recorder()
     if variant == 'opt':
         st, _ = guarded(doubleprox_dc, x, y, p['f'], p['phi'], p['g'], K, n, p['gamma'], p['mu'],
@@ -390,6 +404,7 @@ def family_dpdc(ctx, r, exact, n, opaque=False):
         if d:
             viol(ctx, key, 'iterates differ: ' + d, p, n=n)
         check_callback(ctx, p, n, log_o, x_o, 'doubleprox_dc')
+        start_distinct(ctx, p, n, 'dpdc', 'doubleprox_dc', log_o, lambda: impl_dpdc(p, 'opt', n, True)[:2])
     else:
         ctx.err(err_kind(st_o))
     sig = ('opaque' if opaque else 'model', 'dpdc', p['opkind'], p['fk'], p['hk'], p['gk'],
@@ -466,6 +481,29 @@ def resume_oracle(ctx, p, n, runner, what, obs_names=('x',)):
             bad = True
         if bad:
             break
+    # state handed back in EQUAL BUT SEPARATELY BUILT spaces (legal everywhere in ODL), and state
+    # produced by a run on an equal but distinct operator object, passed on as the same objects
+    for mode in getattr(runner, 'modes', ()):
+        a = r.randint(0, n)
+        st1, log1, mid = runner(None, a, mode=mode) if mode == 'distinct-operator' else runner(None, a)
+        st2, log2, end = runner(mid, n - a, mode=mode)
+        ctx.hit('resume/{}/{}'.format(mode if mode != 'distinct-space' else 'equal-distinct-space',
+                                      p['solver']))
+        k2 = '{} resume with state in {} opkind={} f={} g={}'.format(
+            what, {'distinct-space': 'equal but separately built spaces',
+                   'distinct-operator': 'the objects of a run on an equal but distinct operator',
+                   'float32': 'float32 spaces'}.get(mode, mode), p.get('opkind'), p.get('fk'), p.get('gk'))
+        if st1 != 'ok' or st2 != 'ok':
+            viol(ctx, k2, 'split run {}+{} failed ({} / {}) but the uninterrupted run succeeded'.format(
+                a, n - a, st1, st2), p, n=n, split=[a, n - a], mode=mode)
+            continue
+        d = None
+        for name, u, v in zip(obs_names, end, full):
+            d = d or sl.arrays_differ([u], [v])
+        d = d or sl.arrays_differ(list(log1) + list(log2), log)
+        if d:
+            viol(ctx, k2, '{}+{} iterations differ from {}: {}'.format(a, n - a, n, d), p, n=n,
+                 split=[a, n - a], mode=mode)
     return st, log, full
 
 
@@ -498,12 +536,14 @@ def family_landweber(ctx, r, exact, n, opaque=False):
     n = min(n, p.get('nmax', n))
     A = p['L']
 
-    def runner(state, k):
-        x = unflat(A.domain, p['x0'] if state is None else state[0])
+    def runner(state, k, mode='same'):
+        mk = sl.unflat_distinct if mode == 'distinct-space' else unflat
+        x = mk(A.domain, p['x0'] if state is None else state[0])
         rec = Recorder()
-        st, _ = guarded(landweber, A, x, unflat(A.range, p['rhs']), k, omega=p['omega'],
+        st, _ = guarded(landweber, A, x, mk(A.range, p['rhs']), k, omega=p['omega'],
                         projection=p['proj'], callback=rec)
         return st, rec.iterates, (flat(x).copy(),)
+    runner.modes = ('distinct-space',)
     st, log, full = resume_oracle(ctx, p, n, runner, 'landweber')
     if st == 'ok':
         check_callback(ctx, p, n, log, full[0], 'landweber')
@@ -550,13 +590,15 @@ def family_kaczmarz(ctx, r, exact, n, opaque=False):
     dom = ops[0].domain
 
     def mk_runner(cb):
-        def runner(state, k):
-            x = unflat(dom, p['x0'] if state is None else state[0])
+        def runner(state, k, mode='same'):
+            mk = sl.unflat_distinct if mode == 'distinct-space' else unflat
+            x = mk(dom, p['x0'] if state is None else state[0])
             rec = Recorder()
-            st, _ = guarded(kaczmarz, ops, x, [unflat(o.range, b) for o, b in zip(ops, p['rhs'])],
+            st, _ = guarded(kaczmarz, ops, x, [mk(o.range, b) for o, b in zip(ops, p['rhs'])],
                             k, omega=p['omega'], projection=p['proj'], callback=rec,
                             callback_loop=cb)
             return st, rec.iterates, (flat(x).copy(),)
+        runner.modes = ('distinct-space',)
         return runner
     st, log, full = resume_oracle(ctx, p, n, mk_runner(p['cb']), 'kaczmarz(' + p['cb'] + ')')
     if st == 'ok':
@@ -605,12 +647,14 @@ def family_proxgrad(ctx, r, exact, n, opaque=False):
     p = gen_proxgrad(r, exact, opaque)
     p.update(cseed=r.cseed, exact=exact, opaque=opaque)
 
-    def runner(state, k):
-        x = unflat(p['space'], p['x0'] if state is None else state[0])
+    def runner(state, k, mode='same'):
+        mk = sl.unflat_distinct if mode == 'distinct-space' else unflat
+        x = mk(p['space'], p['x0'] if state is None else state[0])
         rec = Recorder()
         st, _ = guarded(proximal_gradient, x, p['f'], p['g'], p['gamma'], k, callback=rec,
                         lam=p['lam'])
         return st, rec.iterates, (flat(x).copy(),)
+    runner.modes = ('distinct-space',)
     st, log, full = resume_oracle(ctx, p, n, runner, 'proximal_gradient')
     if st == 'ok':
         check_callback(ctx, p, n, log, full[0], 'proximal_gradient')
@@ -657,8 +701,9 @@ def family_osmlem(ctx, r, exact, n, opaque=False):
     ops = p['ops']
     dom = ops[0].domain
 
-    def runner(state, k):
-        x = unflat(dom, p['x0'] if state is None else state[0])
+    def runner(state, k, mode='same'):
+        mk = sl.unflat_distinct if mode == 'distinct-space' else unflat
+        x = mk(dom, p['x0'] if state is None else state[0])
         rec = Recorder()
         kw = {}
         if p['sens_form'] == 'list':
@@ -677,6 +722,7 @@ def family_osmlem(ctx, r, exact, n, opaque=False):
                             k, callback=rec, **kw)
         return st, rec.iterates, (flat(x).copy(),)
     what = 'mlem' if p['use_mlem'] else 'osmlem'
+    runner.modes = ('distinct-space',)
     st, log, full = resume_oracle(ctx, p, n, runner, what)
     if st == 'ok':
         if len(log) != n * p['m']:
@@ -734,12 +780,14 @@ def family_steepest(ctx, r, exact, n, opaque=False):
     p = gen_steepest(r, exact, opaque)
     p.update(cseed=r.cseed, exact=exact, opaque=opaque)
 
-    def runner(state, k):
-        x = unflat(p['space'], p['x0'] if state is None else state[0])
+    def runner(state, k, mode='same'):
+        mk = sl.unflat_distinct if mode == 'distinct-space' else unflat
+        x = mk(p['space'], p['x0'] if state is None else state[0])
         rec = Recorder()
         st, _ = guarded(steepest_descent, p['f'], x, line_search=p['step'], maxiter=k,
                         tol=p['tol'], projection=p['proj'], callback=rec)
         return st, rec.iterates, (flat(x).copy(),)
+    runner.modes = ('distinct-space',)
     st, log, full = resume_oracle(ctx, p, n, runner, 'steepest_descent(constant step)')
     if st == 'ok':
         if len(log) > n:
@@ -794,17 +842,29 @@ def family_pdhg(ctx, r, exact, n, opaque=False):
     kw = {} if p['theta'] is None else {'theta': p['theta']}
     theta = 1.0 if p['theta'] is None else p['theta']
 
-    def runner(state, k):
+    # an EQUAL problem built separately (same sub-seed): its operator, spaces and functionals are
+    # distinct objects
+    p2 = gen_pdhg(SeededRandom(p['cseed']), exact, opaque)
+
+    def runner(state, k, mode='same'):
+        q = p2 if (mode == 'distinct-operator' and state is None) else p
+        Lq = q['L']
+        mk = sl.unflat_distinct if mode == 'distinct-space' else unflat
         if state is None:
-            x = unflat(L.domain, p['x0'])
-            xr, y = x.copy(), L.range.zero()
+            x = unflat(Lq.domain, q['x0'])
+            xr, y = x.copy(), Lq.range.zero()
+        elif mode == 'distinct-operator' and len(state) == 4:
+            x, xr, y = state[3]          # the very objects of the run on the equal operator
         else:
-            x, xr, y = (unflat(L.domain, state[0]), unflat(L.domain, state[1]),
-                        unflat(L.range, state[2]))
+            x, xr, y = mk(L.domain, state[0]), mk(L.domain, state[1]), mk(L.range, state[2])
         rec = Recorder()
-        st, _ = guarded(pdhg, x, p['f'], p['g'], L, k, tau=p['tau'], sigma=p['sigma'],
+        st, _ = guarded(pdhg, x, q['f'], q['g'], Lq, k, tau=q['tau'], sigma=q['sigma'],
                         callback=rec, x_relax=xr, y=y, **kw)
-        return st, rec.iterates, (flat(x).copy(), flat(xr).copy(), flat(y).copy())
+        out = (flat(x).copy(), flat(xr).copy(), flat(y).copy())
+        if mode == 'distinct-operator' and state is None:
+            out = out + ((x, xr, y),)
+        return st, rec.iterates, out
+    runner.modes = ('distinct-space', 'distinct-operator')
     st, log, full = resume_oracle(ctx, p, n, runner, 'pdhg(x_relax, y passed back)',
                                   ('x', 'x_relax', 'y'))
     if st == 'ok':
@@ -862,6 +922,59 @@ def family_pdhg(ctx, r, exact, n, opaque=False):
                                   st3, rec.iterates, {'x': flat(x).copy()} if st3 == 'ok' else {}))
                 ctx.hit('model/pdhg/half-resumed(' + which + ')')
     return cases
+
+
+def family_resume_float32(ctx, r, exact, n, opaque=False):
+    """float32 spaces: landweber and pdhg (x_relax, y passed back, in the same and in equal but
+    separately built float32 spaces): n then m iterations = n + m (same float32 operations)."""
+    import odl
+    from odl.solvers import landweber, pdhg
+    d, m = r.randint(1, 3), r.randint(1, 3)
+    M = sl.small_int_matrix(r, m, d).astype('float32')
+    A = odl.MatrixOperator(M)
+    S = odl.solvers
+    f = r.choice([S.L1Norm, S.L2NormSquared, S.ZeroFunctional])(A.domain)
+    g = r.choice([S.L1Norm, S.L2NormSquared])(A.range)
+    x0, rhs = sl.dy_vec(r, d, 16, 8), sl.dy_vec(r, m, 16, 8)
+    n = r.randint(2, 8)
+    a = r.randint(0, n)
+    p = dict(solver='resume_float32', opkind='matrix-f32', x0=x0, fk=type(f).__name__, gk=type(g).__name__,
+             cseed=r.cseed, exact=exact, opaque=opaque)
+
+    def el(space, arr, distinct):
+        sp = (sl.rebuild_space(space) or space) if distinct else space
+        return sp.element(np.asarray(arr, dtype='float32').copy())
+    for distinct in (False, True):
+        # landweber
+        def lw(start, k):
+            x = el(A.domain, start, distinct)
+            st, _ = guarded(landweber, A, x, el(A.range, rhs, distinct), k, omega=0.0625)
+            return st, flat(x).copy()
+        st, full = lw(x0, n)
+        st1, mid = lw(x0, a)
+        st2, end = lw(mid, n - a)
+        if st != 'ok' or st1 != 'ok' or st2 != 'ok' or sl.arrays_differ([end], [full], 1e-6):
+            viol(ctx, 'landweber resume on float32 spaces{}'.format(' (equal but separately built)' if distinct else ''),
+                 '{}+{} vs {}: {} {} {} {} vs {}'.format(a, n - a, n, st, st1, st2, end, full), p, n=n)
+        # pdhg
+        def pd(state, k):
+            if state is None:
+                x = el(A.domain, x0, False)
+                xr, y = x.copy(), A.range.zero()
+            else:
+                x, xr, y = el(A.domain, state[0], distinct), el(A.domain, state[1], distinct), \
+                    el(A.range, state[2], distinct)
+            st, _ = guarded(pdhg, x, f, g, A, k, tau=0.25, sigma=0.25, x_relax=xr, y=y)
+            return st, (flat(x).copy(), flat(xr).copy(), flat(y).copy())
+        st, full = pd(None, n)
+        st1, mid = pd(None, a)
+        st2, end = pd(mid, n - a)
+        if st != 'ok' or st1 != 'ok' or st2 != 'ok' or sl.arrays_differ(list(end), list(full), 1e-6):
+            viol(ctx, 'pdhg resume on float32 spaces{}'.format(' (equal but separately built)' if distinct else ''),
+                 '{}+{} vs {}: {} {} {}'.format(a, n - a, n, st, st1, st2), p, n=n)
+    ctx.case(('oracle', 'resume_float32', d, m, p['fk'], p['gk']))
+    ctx.hit('resume/float32/landweber,pdhg')
+    return []
 
 
 def family_steepest_ls(ctx, r, exact, n, opaque=False):
@@ -926,6 +1039,7 @@ FAMILIES = {
     'steepest': family_steepest,
     'pdhg': family_pdhg,
     'steepest_ls': family_steepest_ls,
+    'resume_float32': family_resume_float32,
 }
 EXPECTED_BRANCHES = [
     'model/admm/opt', 'model/admm/simple', 'model/adupdates/inner', 'model/adupdates/outer',
@@ -939,6 +1053,11 @@ EXPECTED_BRANCHES = [
     'model/pdhg/fresh', 'model/pdhg/resumed', 'model/pdhg/half-resumed(xr)',
     'model/pdhg/half-resumed(y)', 'model/pdhg/linear-op', 'model/pdhg/nonlinear-op',
     'compare/exact', 'compare/tolerance', 'oracle/resume-splits',
+    'resume/equal-distinct-space/landweber', 'resume/equal-distinct-space/kaczmarz',
+    'resume/equal-distinct-space/proxgrad', 'resume/equal-distinct-space/osmlem',
+    'resume/equal-distinct-space/steepest', 'resume/equal-distinct-space/pdhg',
+    'resume/distinct-operator/pdhg', 'resume/float32/landweber,pdhg', 'start/equal-distinct-space/admm',
+    'start/equal-distinct-space/adupdates', 'start/equal-distinct-space/dpdc',
     'oracle/steepest_descent+BacktrackingLineSearch resume/stateless',
     'oracle/steepest_descent+BacktrackingLineSearch resume/estimate_step',
 ]
